@@ -42,6 +42,9 @@ CHECKS["C11"] = ("differential testing of generated HTTP handlers: concurrent (r
 CHECKS["C12"] = ("model-based stateful testing: exhaustive short histories + rapid histories over base and temporary VMs, every lookup on every VM compared with a set model after every step",
          "Histories of define (by parsing source through the VM's parser, or by Add*) / probing script / discard over one base VM and up to four temporary VMs with colliding names; after each step every VM answers GetClass / GetInterface / GetFunc / LoadPkg (and class_exists / function_exists / new / call) for every name and must agree with Base U Local[i].",
          "Only resolvability is asserted for names defined on several VMs; intended write-through sharing (file cache, constants, globals) is not modelled.")
+CHECKS["C13"] = ("exhaustive enumeration of response-operation sequences and middleware stacks against a reference model of commit-once semantics; rapid longer sequences",
+         "All sequences up to length 4 (thorough 6, symmetry-pruned) over 11 response operations as generated route handlers served through an instrumented ResponseWriter (WriteHeader count, header snapshot at commit); all middleware stacks of <= 5 entries with priorities {-1,0,0,1,5} in every registration order; longer sequences seeded.",
+         "Single-operation body/header contributions are calibrated from the implementation; the model asserts ordering and commit semantics.")
 NOT_YET = {
 }
 
